@@ -751,8 +751,9 @@ def assumptions():
         'compares it) is a hypothesis of the filter theorems; it is derived from C10\'s table invariant for the key .NAME '
         '(C13_lookup_hypothesis_for_names), holds outright for keys without a registered lookup and with the lookups deregistered '
         '(C13_lookup_hypothesis_for_scanned_keys) and under the DEFAULT policy, and for EDIF.identifier under the EDIF policy it is derived '
-        'from C10\'s invariant plus PolCoh - the children of a parent with an EDIF table carry .NS = EDIF - which is a hypothesis '
-        '(C13_lookup_hypothesis_for_identifiers); on the implementation the lookup clause of the oracle checks it on every run',
+        'from C10\'s invariant plus PolCoh - the children of a parent with an EDIF table carry .NS = EDIF - which is proved for every '
+        'state reached by editing calls (C13_policy_coherence_reachable, C13_lookup_hypothesis_reachable) and checked on the implementation '
+        'on every run (policy-coherence check, lookup clause of the oracle)',
         'an exact pattern is compared per element: case-insensitively iff the key is EDIF.identifier and the element\'s .NS is EDIF (oracle: '
         'ci_exact(e); model: fold_of) - finding C13-K4 repaired',
         'the enumeration theorems assume the structural invariants QWF (C01/C02 invariants, well-kinded ids; hold in every state reached by '
